@@ -12,7 +12,7 @@ import ast
 import re
 
 from sa import sigdata, families, codec, tables
-from sa.interp import Interp, Scenario, Sym, Const, Bytes, Enum, render, render_items, merge_consts, render_item
+from sa.interp import alpha, Interp, Scenario, Sym, Const, Bytes, Enum, render, render_items, merge_consts, render_item
 from sa.loader import AnalysisError, dotted
 from sa.sigdata import enum_const
 
@@ -326,7 +326,7 @@ def check_sig_codecs(rep, prog):
     # generic writer: MPIs in __mpis__ order
     sb = fields.classes['Signature'].methods['__bytearray__']
     for s in Interp(prog, Scenario(inline=noinline)).run(sb):
-        rep.check(render(s.ret) == 'EACH(i in self;i.to_mpibytes())', 'C02.4', 'fields.Signature.__bytearray__', render(s.ret),
+        rep.check(alpha(render(s.ret)) == 'EACH($1 in self;$1.to_mpibytes())', 'C02.4', 'fields.Signature.__bytearray__', render(s.ret),
                   'signature MPIs are written in field order', where=sb.where)
 
 
@@ -353,13 +353,13 @@ def check_sigv4_writer(rep, prog):
     sp = prog.cls('pgpy.packet.fields', 'SubPackets')
     for s in Interp(prog, Scenario(bind={'self._hashed_raw': Const(None)}, inline=noinline)).run(sp.methods['__hashbytearray__']):
         r = render(s.ret)
-        exp = 'INT(2;sum((len(sp) for sp in self._hashed_sp.values()))) EACH(hsp in self._hashed_sp.values();hsp.__bytearray__())'
-        rep.check(r == exp, 'C02.5', 'SubPackets.__hashbytearray__', r, 'a freshly built hashed area is its two-octet length then its subpackets in order',
+        exp = 'INT(2;sum(EACH($1 in self._hashed_sp.values();len($1)))) EACH($2 in self._hashed_sp.values();$2.__bytearray__())'
+        rep.check(alpha(r) == exp, 'C02.5', 'SubPackets.__hashbytearray__', r, 'a freshly built hashed area is its two-octet length then its subpackets in order',
                   where=sp.where, expected=exp, found=r)
     for s in Interp(prog, Scenario(inline=noinline)).run(sp.methods['__unhashbytearray__']):
         r = render(s.ret)
-        exp = 'INT(2;sum((len(sp) for sp in self._unhashed_sp.values()))) EACH(uhsp in self._unhashed_sp.values();uhsp.__bytearray__())'
-        rep.check(r == exp, 'C02.5', 'SubPackets.__unhashbytearray__', r, 'the unhashed area is its two-octet length then its subpackets in order',
+        exp = 'INT(2;sum(EACH($1 in self._unhashed_sp.values();len($1)))) EACH($2 in self._unhashed_sp.values();$2.__bytearray__())'
+        rep.check(alpha(r) == exp, 'C02.5', 'SubPackets.__unhashbytearray__', r, 'the unhashed area is its two-octet length then its subpackets in order',
                   where=sp.where, expected=exp, found=r)
 
 
